@@ -4,6 +4,7 @@ pub mod c04;
 pub mod c05;
 pub mod c07;
 pub mod c08;
+pub mod c09;
 pub mod simcommon;
 pub mod c10;
 pub mod c11;
@@ -26,6 +27,7 @@ pub fn run(ctx: &Ctx, id: &str) -> bool {
         "C05" => c05::run(ctx),
         "C07" => c07::run(ctx),
         "C08" => c08::run(ctx),
+        "C09" => c09::run(ctx),
         "C10" => c10::run(ctx),
         "C11" => c11::run(ctx),
         "C13" => c13::run(ctx),
@@ -46,6 +48,7 @@ pub fn replay(ctx: &Ctx, id: &str, part: &str, case: &Value) -> bool {
         "C05" => c05::replay(ctx, part, case),
         "C07" => c07::replay(ctx, part, case),
         "C08" => c08::replay(ctx, part, case),
+        "C09" => c09::replay(ctx, part, case),
         "C10" => c10::replay(ctx, part, case),
         "C11" => c11::replay(ctx, part, case),
         "C13" => c13::replay(ctx, part, case),
